@@ -798,4 +798,146 @@ theorem parse_term (F : CertFacts T C) (PF : PotFacts T C P) (hL : LexProg T) (t
   show P.phi [0] + (2 * (P.wMax + P.rMax) + 2) * text.length + (P.wMax + P.rMax) + 3 < 64 * (text.length + 2) + 1024
   omega
 
+/-! ### the step bound of `accepts` is never reached either -/
+
+/-- a reduction seen on the state stack alone (what `accepts` simulates) -/
+theorem stack_reduce (F : CertFacts T C) (PF : PotFacts T C P) (t : Nat) (st : List Nat) (sy : List Sym) (p : Nat)
+    (hc : Chain C (t :: st) sy) (hred : C.redOK T t p = true) :
+    ∃ prod, T.prods[p]? = some prod ∧ (prod.accept = false →
+      ∃ sy', Chain C (gotoOf T (((t :: st).drop prod.pops).headD 0) prod.nt :: (t :: st).drop prod.pops) sy'
+        ∧ P.phi (gotoOf T (((t :: st).drop prod.pops).headD 0) prod.nt :: (t :: st).drop prod.pops) + 1 ≤ P.phi (t :: st)) := by
+  have hred0 := hred
+  unfold Cert.redOK at hred
+  cases hp : T.prods[p]? with
+  | none => simp [hp] at hred
+  | some prod =>
+    refine ⟨prod, rfl, fun hacc => ?_⟩
+    simp only [hp, Bool.and_eq_true, beq_iff_eq] at hred
+    obtain ⟨⟨hlen1, hlen2⟩, hbw⟩ := hred
+    cases hb : C.backWalk [t] prod.rhsIds.reverse with
+    | none => simp [hb] at hbw
+    | some q0s =>
+      simp only [hb, hacc, Bool.false_eq_true, if_false] at hbw
+      obtain ⟨h1, h2, q0, r, h3, h4⟩ := backWalk_sound T C F _ [t] t st sy q0s hc (by simp) hb
+      simp only [List.length_reverse] at h1 h2 h3
+      have hedge := (List.all_eq_true.mp hbw) q0 h4
+      have hdropc := hc.drop prod.rhsIds.length h1
+      rw [hlen2, h3]
+      rw [h3] at hdropc
+      simp only [List.headD_cons]
+      let X : Sym := { start := 0, id := T.ncols + prod.nt, name := "", val := .none_, stop := 0 }
+      refine ⟨X :: sy.drop prod.rhsIds.length, Chain.step hdropc hedge, ?_⟩
+      -- the potential: as in `reduce_pot`
+      obtain ⟨q, rest, hdrop, hfwd⟩ := fwd_sound T C P PF prod.rhsIds.length t st sy hc h1 0
+      rw [h3] at hdrop
+      cases hdrop
+      have hids : ((sy.take prod.rhsIds.length).reverse).map (·.id) = prod.rhsIds := reverse_take_map_eq h2
+      rw [hids] at hfwd
+      have hpe := PF.edge q0 _ _ hedge
+      obtain ⟨hinfo, hmem⟩ := PF.info p prod hp
+      unfold Pot.edgePotOK at hpe
+      have hnlt : ¬ (T.ncols + prod.nt < T.ncols) := by omega
+      simp only [hnlt, if_false, Nat.add_sub_cancel_left] at hpe
+      have := (List.all_eq_true.mp hpe) p hmem
+      simp only [hinfo, hacc, Bool.false_or, hfwd, PF.next q0 _ _ hedge, decide_eq_true_eq] at this
+      have hsum := wSum_take_drop P prod.rhsIds.length (t :: st)
+      rw [h3] at hsum
+      rw [phi_cons]
+      unfold Pot.phi
+      simp only [List.headD_cons]
+      omega
+
+/-- with more steps than the potential, the simulation gives an answer -/
+theorem accepts_total (F : CertFacts T C) (PF : PotFacts T C P) (col : Option Nat) :
+    ∀ (n : Nat) (states : List Nat) (sy : List Sym), Chain C states sy → P.phi states < n →
+      accepts.loop T col states n ≠ none := by
+  intro n
+  induction n with
+  | zero => intro states sy _ h; omega
+  | succ n ih =>
+    intro states sy hc hphi
+    have hne : ∃ t st, states = t :: st := by
+      cases states with
+      | nil => have := hc.length; simp at this
+      | cons t st => exact ⟨t, st, rfl⟩
+    obtain ⟨t, st, rfl⟩ := hne
+    have key : ∀ (a : Int), (∀ r, asReduce a = some r → C.redOK T t r = true) →
+        (if a = 0 then some false
+         else match asReduce a with
+          | some r =>
+            match T.prods[r]? with
+            | none => none
+            | some prod =>
+              if prod.accept then some true
+              else accepts.loop T col (gotoOf T (((t :: st).drop prod.pops).headD 0) prod.nt :: (t :: st).drop prod.pops) n
+          | none => some true) ≠ none := by
+      intro a hredA
+      by_cases ha0 : a = 0
+      · rw [if_pos ha0]; intro h; cases h
+      · rw [if_neg ha0]
+        cases hr : asReduce a with
+        | none => dsimp only; intro h; cases h
+        | some r =>
+          dsimp only
+          obtain ⟨prod, hp, hstep⟩ := stack_reduce T C P F PF t st sy r hc (hredA r hr)
+          rw [hp]
+          dsimp only
+          cases hacc : prod.accept with
+          | true => simp
+          | false =>
+            simp only [Bool.false_eq_true, if_false]
+            obtain ⟨sy', hc', hphi'⟩ := hstep hacc
+            exact ih _ sy' hc' (by omega)
+    unfold accepts.loop
+    cases col with
+    | none => exact key (eofActionAt T t) (fun r hr => F.redEof t r hr)
+    | some i => exact key (actionAt T t i) (fun r hr => F.red t i r hr)
+
+theorem wSum_le (l : List Nat) : P.wSum l ≤ P.wMax * l.length := by
+  induction l with
+  | nil => simp [wSum_nil]
+  | cons x xs ih =>
+    rw [wSum_cons, List.length_cons, Nat.mul_succ]
+    have := wOf_le P x
+    omega
+
+/-- **the simulation inside `error_recovery` never runs out of its own step bound** (so the model's
+    `getD false` on its result hides nothing), provided `wMax ≤ 1` and `wMax + rMax < 1023` -/
+theorem errorCandidate_total (F : CertFacts T C) (PF : PotFacts T C P) (hw : P.wMax ≤ 1) (hr : P.wMax + P.rMax < 1023)
+    (s : St) (hc : Chain C s.states s.syms) (top : Nat) (col : Option Nat) (errState : Nat)
+    (htop : top < s.states.length)
+    (hsh : asShift (errorAction T ((s.states.drop (s.states.length - 1 - top)).headD 0)) = some errState) :
+    accepts T errState (s.states.drop (s.states.length - 1 - top)) col (s.states.length + 1024) ≠ none := by
+  have hsl := hc.length
+  have hdrop := hc.drop (s.states.length - 1 - top) (by omega)
+  have hne : ∃ q rest, s.states.drop (s.states.length - 1 - top) = q :: rest := by
+    cases hd : s.states.drop (s.states.length - 1 - top) with
+    | nil =>
+      have := congrArg List.length hd
+      simp only [List.length_drop, List.length_nil] at this
+      omega
+    | cons q rest => exact ⟨q, rest, rfl⟩
+  obtain ⟨q, rest, hq⟩ := hne
+  rw [hq] at hsh hdrop
+  simp only [List.headD_cons] at hsh
+  have hedge := F.shift q (T.ncols - 1) errState hsh
+  let X : Sym := { start := 0, id := T.ncols - 1, name := "", val := .none_, stop := 0 }
+  have hchain : Chain C (errState :: q :: rest) (X :: s.syms.drop (s.states.length - 1 - top)) := Chain.step hdrop hedge
+  have h1 : s.states.length + 1024 = (s.states.length + 1023) + 1 := by omega
+  rw [h1]
+  unfold accepts
+  dsimp only
+  rw [hq]
+  refine accepts_total T C P F PF col _ _ _ hchain ?_
+  rw [phi_cons]
+  have := wOf_le P errState
+  have := rOf_le P errState
+  have h2 := wSum_le P (q :: rest)
+  have h3 : (q :: rest).length ≤ s.states.length := by
+    rw [← hq, List.length_drop]; omega
+  have h4 : P.wMax * (q :: rest).length ≤ (q :: rest).length := by
+    have := Nat.mul_le_mul_right (q :: rest).length hw
+    omega
+  omega
+
 end Aidl.Props.LrTerm
